@@ -51,12 +51,14 @@ PortWindowCoversLine == (Ok /\ Len(R.caps) > 0 => \A i \in 1..NS : Caps(i) => R.
 \* ---------------- C03 ----------------
 VInit == Eval(St, 2, [i \in 1..NS |-> InitVal(InW(i))])
 VFinal == Eval(St, 2, [i \in 1..NS |-> FinalVal(InW(i))])
+\* (vi, vf: bound once per state by LET - TLC caches a LET value, not an operator applied inside a quantifier)
 Functional == (Ok /\ R.has.c03 =>
+                 LET vi == VInit  vf == VFinal IN
                  /\ (Len(R.waves) > 0 => \A x \in Lines : WellFormed(W(x)) =>
-                        InitVal(W(x)) = VInit[x + 1] /\ FinalVal(W(x)) = VFinal[x + 1])
+                        InitVal(W(x)) = vi[x + 1] /\ FinalVal(W(x)) = vf[x + 1])
                  /\ \A i \in 1..NS : (Caps(i) /\ WellFormed(PortW(i))) =>
-                        /\ InitVal(PortW(i)) = Captured(St, VInit, i) /\ FinalVal(PortW(i)) = Captured(St, VFinal, i)
-                        /\ SV(i)[1] = Captured(St, VInit, i) /\ SV(i)[4] = Captured(St, VFinal, i)) \/ Fail("C03", "Functional")
+                        /\ InitVal(PortW(i)) = Captured(St, vi, i) /\ FinalVal(PortW(i)) = Captured(St, vf, i)
+                        /\ SV(i)[1] = Captured(St, vi, i) /\ SV(i)[4] = Captured(St, vf, i)) \/ Fail("C03", "Functional")
 \* ---------------- C04 ----------------
 DMin(x) == MinOf({R.dl[x + 1][a][b] : a \in 1..2, b \in 1..2})
 DMax(x) == MaxOf({R.dl[x + 1][a][b] : a \in 1..2, b \in 1..2})
